@@ -652,7 +652,18 @@ func (r *funcRun) deferCall(st *State, d *ssa.Defer) {
 			saved[k] = s.regs[k]
 			s.regs[k] = v
 		}
-		r.call(s, &cc, d, types.NewTuple())
+		// the results of a deferred call are discarded, but its contract may speak about them
+		var resT types.Type = types.NewTuple()
+		if sg := cc.Signature(); sg != nil {
+			switch sg.Results().Len() {
+			case 0:
+			case 1:
+				resT = sg.Results().At(0).Type()
+			default:
+				resT = sg.Results()
+			}
+		}
+		r.call(s, &cc, d, resT)
 		for k, v := range saved {
 			if v != nil {
 				s.regs[k] = v
